@@ -303,3 +303,78 @@ impl Property for BigAlphabets {
         o
     }
 }
+
+
+/////////////////////////////////////////// skewed contexts //////////////////////////////////////////
+
+/// Texts in which one context is preceded by 18-22 different symbols with Fibonacci-like frequencies,
+/// so that the Huffman code of the rarest predecessor is longer than 16 (up to 21) bits: code lengths
+/// that natural, random and periodic texts never reach.  Same oracle as the other document parts.
+pub struct SkewedContexts;
+
+fn skewed_case() -> BoxedStrategy<DocCase> {
+    (18usize..=22, 1usize..=2, any::<bool>(), prop::collection::vec(any::<u16>(), 0..40))
+        .prop_flat_map(|(depth, ctx_len, spaced, noise)| {
+            // predecessor i occurs fib(i) times
+            let mut fib = vec![1usize, 1];
+            while fib.len() < depth {
+                let n = fib.len();
+                fib.push(fib[n - 1] + fib[n - 2]);
+            }
+            let mut units: Vec<u32> = vec![];
+            for (i, f) in fib.iter().enumerate() {
+                for _ in 0..*f {
+                    units.push(100 + i as u32);
+                }
+            }
+            (Just(units).prop_shuffle(), Just((depth, ctx_len, spaced, noise)))
+        })
+        .prop_flat_map(|(units, (depth, ctx_len, spaced, noise))| {
+            let mut text: Vec<u32> = Vec::with_capacity(units.len() * (ctx_len + 2));
+            for (j, p) in units.iter().enumerate() {
+                text.push(*p);
+                text.push(7);
+                if ctx_len == 2 {
+                    text.push(8);
+                }
+                if spaced {
+                    text.push(9);
+                }
+                if let Some(x) = noise.get(j % 97).filter(|_| j % 1013 == 0) {
+                    text.push(1000 + (*x as u32 % 50));
+                }
+            }
+            doc_case_from_text(format!("skewed:{depth}-predecessors"), "fibonacci-context".to_string(), text).prop_map(|mut c| {
+                c.needles.retain(|nd| !nd.syms.is_empty());
+                for nd in c.needles.iter_mut() {
+                    if nd.syms.len() > 200 {
+                        nd.syms.truncate(200);
+                        nd.kind = format!("{}(first 200 symbols)", nd.kind);
+                    }
+                }
+                c
+            })
+        })
+        .boxed()
+}
+
+impl Property for SkewedContexts {
+    type Case = MixCase;
+    fn name(&self) -> String {
+        "document-skewed-contexts".into()
+    }
+    fn cases(&self, tier: Tier) -> u64 {
+        tier.pick(1, 12)
+    }
+    fn strategy(&self, _: &Ctx) -> BoxedStrategy<MixCase> {
+        ((any::<u16>(), any::<u16>()), skewed_case()).prop_map(|(mix, doc)| MixCase { mix, doc }).boxed()
+    }
+    fn max_shrink_iters(&self) -> u32 {
+        4
+    }
+    fn run(&self, ctx: &Ctx, mc: &MixCase) -> Outcome {
+        let mut o = BigAlphabets.run(ctx, mc);
+        o.label("huffman-code-longer-than-16-bits-possible");
+        o
+    }
+}
